@@ -73,6 +73,8 @@ def do_call(ex, n, st):
         return call_repo(ex, f.qual, recv, args, kw, st, n)
     if isinstance(f, ClassVal):
         return construct(ex, f, args, kw, st, n)
+    if hasattr(f, 'pyvc_call'):
+        return f.pyvc_call(ex, args, kw, st, n)
     if isinstance(f, ExternVal):
         raise SymErr('call to external %s (line %d) without a model' % (f.name, n.lineno))
     raise SymErr('call of %r (line %d)' % (f, n.lineno))
